@@ -3,6 +3,6 @@
 # the T4 reader and the witness generator.
 HERE="$(cd "$(dirname "$0")" && pwd)"
 cd "$HERE" || exit 2
-export PYTHONDONTWRITEBYTECODE=1 PYTHONHASHSEED=0 T4GC_VERIF=1
+export PYTHONDONTWRITEBYTECODE=1 PYTHONHASHSEED=0 T4GC_VERIF=1 OPENBLAS_NUM_THREADS=1 OMP_NUM_THREADS=1 MKL_NUM_THREADS=1
 mkdir -p evidence replays
 exec /venv/bin/python -m t4mc.selftest
